@@ -305,6 +305,18 @@ fn e2e_cases(s: &mut Session, tier: &str, rng: &mut Rng) {
                     s.oracle_fail(&format!("e2e-udp:{}", cfg.label()), &format!("{} applications x {} targets: datagrams lost, altered, misdelivered or mislabelled: `{}`", apps, targets, r));
                 }
             }
+            // one application, targets named in three ways (two addresses, a name) whose orders by address and by port
+            // disagree: the binding table keeps every one of them apart and finds every one again
+            for (apps, targets, per) in if thorough { vec![(1, 6, 3), (2, 9, 2)] } else { vec![(1, 6, 2)] } {
+                let r = s.run(&format!("e2e.udpm {} apps={} targets={} per={} seed={} mix=1", w, apps, targets, per, rng.below(1 << 40)));
+                if r != "up=ok down=ok stray=0" {
+                    s.oracle_fail(&format!("e2e-udp-mixed-targets:{}", cfg.label()), &format!("{} applications x {} targets named by address and by name: datagrams lost, altered or misdelivered: `{}`", apps, targets, r));
+                }
+                let r = s.run(&format!("e2e.alive {}", w));
+                if r != "alive" {
+                    s.oracle_fail(&format!("e2e-udp-mixed-targets:{}", cfg.label()), &format!("after datagrams to targets named by address and by name a service task had ended: `{}`", r));
+                }
+            }
             // a datagram that cannot be relayed (too large once the protocol's own bytes are added — towards the server, or an
             // answer on its way back) is lost by itself: the other applications' datagrams before and after it are not
             for f in ["server-udp-oversized-reply", "local-udp-oversized"] {
